@@ -29,6 +29,7 @@ extern "C"
     long prog_wait(void *head, int prio);
     void prog_wake(void *head, int all, int wrapped, long u);
     void *prog_queue_new(void);
+    void *prog_queue_new_preloaded(int prod, int n);
     void prog_queue_delete(void *q);
     void prog_queue_push(void *q, int prod, int seq);
     void prog_queue_pop(void *q);
